@@ -1,6 +1,7 @@
 import Mathlib.Algebra.Order.Field.Rat
 import TapkeeVerif.Proofs.QuadTreeForces
 import TapkeeVerif.Proofs.QuadTreeFuel
+import TapkeeVerif.Proofs.QuadTreeRoot
 /-!
 # C18 — the Barnes–Hut quadtree stores each point once; masses and centres of mass; force sums
 
@@ -40,6 +41,18 @@ theorem each_point_once (data : Nat → K × K) (fuel : Nat) (root : Cell K) (is
     have hp : data i ∈ acceptedPts data root is := by
       rw [acceptedPts_eq]; exact List.mem_map_of_mem (List.mem_filter.2 ⟨hi, hc⟩)
     exact represented data t _ hwf (data i) hp
+
+/-- **the default constructor `QuadTree(data, N)` accepts every point**: its root cell (mean ± largest deviation + a
+    padding `eps ≥ 0`, `1e-5` in the code) contains all `N` points, so every index `i < N` is represented in the tree -/
+theorem default_root_accepts_all (data : Nat → K × K) (eps : K) (heps : 0 ≤ eps) (n i : Nat) (hi : i < n) :
+    (rootCell eps ((List.range n).map data)).containsPoint (data i) = true :=
+  rootCell_contains_all eps heps _ _ (List.mem_map_of_mem (List.mem_range.2 hi))
+
+theorem each_point_once_default (data : Nat → K × K) (fuel : Nat) (eps : K) (heps : 0 ≤ eps) (n : Nat) (t : Tree K)
+    (h : buildDefault data fuel eps n = some t) :
+    (allIndices t).Nodup ∧ ∀ i < n, ∃ r ∈ allIndices t, data r = data i ∧ locate (data i) t = some r := by
+  obtain ⟨h1, -, -, h4⟩ := each_point_once data fuel _ (List.range n) t h
+  exact ⟨h1, fun i hi => h4 i (List.mem_range.2 hi) (default_root_accepts_all data eps heps n i hi)⟩
 
 /-- `isCorrect()` returns true on every tree the constructor can build -/
 theorem isCorrect_true (data : Nat → K × K) (fuel : Nat) (root : Cell K) (is : List Nat) (t : Tree K)
